@@ -93,10 +93,14 @@ def rand_cfg(det, rng):
     return (w, aw, ad)
 
 
-def run_sequence(det, cfg, bits, ctx, label, resets=()):
+def run_sequence(det, cfg, bits, ctx, label, resets=(), numpy_params=False):
     """returns (ok, drifts).  resets: positions before which the user calls reset() explicitly (a new epoch starts there)"""
     cls, mcls = CLS[det]
-    d = cls(*cfg)
+    if numpy_params:
+        d = cls(*[np.int64(v) if isinstance(v, int) else (np.float64(v) if isinstance(v, float) else v) for v in cfg])
+        ctx.count("numpy_typed_parameters")
+    else:
+        d = cls(*cfg)
     sh = Shadow(lambda: mcls(*cfg), lambda m: m.state)
     drifts = 0
     prev_state = None
@@ -176,7 +180,8 @@ def run_case(case, ctx):
     n = int(rng.integers(200, 1500))
     bits = gen.bernoulli_piecewise(rng, n, seg=(2, 150))
     resets = set(int(v) for v in rng.integers(1, n, size=int(rng.integers(0, 4)))) if rng.random() < 0.3 else set()
-    ok, drifts = run_sequence(det, cfg, bits, ctx, "random sequence" + (" with explicit reset() before %s" % sorted(resets) if resets else ""), resets)
+    ok, drifts = run_sequence(det, cfg, bits, ctx, "random sequence" + (" with explicit reset() before %s" % sorted(resets) if resets else ""), resets,
+                                numpy_params=(case["seed"][-1] % 3 == 1))
     ctx.count("random_sequences")
     if drifts >= 3:
         ctx.count("histories_3plus_epochs")
